@@ -52,7 +52,7 @@ Qed.
 Section WithFacts.
   Variable F : list stmt_fact.
   Hypothesis HF : facts_ok F = true.
-  Let ci := true.
+  Local Notation ci := true.
 
   Lemma ex_remove : forall b ids d, ex F ci (ORemoveMessages b ids) d = sp_remove_messages b ids d.
   Proof. intros. unfold ex. rewrite (remove_messages_refines F ci b ids d HF). reflexivity. Qed.
@@ -104,3 +104,440 @@ Section WithFacts.
     - intros [g [Hin [Hm Hx]]]. exists g. split; [symmetry; exact Hx|]. apply filter_In. split; [exact Hin | apply nmem_In; exact Hm].
   Qed.
 End WithFacts.
+
+Section WithFacts2.
+  Variable F : list stmt_fact.
+  Hypothesis HF : facts_ok F = true.
+  Local Notation ci := true.
+
+  Lemma ex_ok : forall o d d' r, exec_spec ci o d = Ok d' r -> exists r', ex F ci o d = Ok d' r'.
+  Proof.
+    intros o d d' r H. pose proof (op_refines F ci o d HF) as R. rewrite H in R. unfold ex.
+    destruct (exec_impl F ci o d) as [d1 r1|e]; cbn in R; [|contradiction]. destruct R as [E _]. subst. eexists. reflexivity.
+  Qed.
+  Lemma ex_fail : forall o d e, exec_spec ci o d = Fail e -> ex F ci o d = Fail e.
+  Proof.
+    intros o d e H. pose proof (op_refines F ci o d HF) as R. rewrite H in R. unfold ex.
+    destruct (exec_impl F ci o d) as [d1 r1|e1]; cbn in R; [contradiction|]. subst. reflexivity.
+  Qed.
+  Lemma ex_common : forall o d, exec_spec ci o d = exec_common o d -> ex F ci o d = exec_common o d.
+  Proof.
+    intros o d H. destruct (exec_common o d) as [d' r|e] eqn:E.
+    - destruct o; cbn [exec_spec] in H; unfold ex; cbn [exec_impl]; try (rewrite E; reflexivity);
+        cbn [exec_common] in E; discriminate.
+    - apply ex_fail. rewrite H. reflexivity.
+  Qed.
+End WithFacts2.
+
+(* ------------------------------------------------------------------ tables and their abstraction *)
+Definition held (d : db) (b m : N) : bool :=
+  match find_tab b (d_tabs d) with
+  | Some t => existsb (fun x => N.eqb (r_msg x) m) (t_rows t)
+  | None => false
+  end.
+
+Definition rows_ok (d : db) (t : mtab) : Prop :=
+  (forall x, In x (t_rows t) -> r_remote x = r_msg x /\ msg_exists (r_msg x) d = true) /\ NoDup (map r_msg (t_rows t)).
+
+Record inv (d : db) : Prop := mkInv {
+  i_boxes : forall t, In t (d_tabs d) -> mbox_exists (t_box t) d = true;
+  i_tabs : NoDup (map t_box (d_tabs d));
+  i_rows : forall t, In t (d_tabs d) -> rows_ok d t;
+  i_msgs : forall g, In g (d_msgs d) -> mg_remote g = mg_id g;
+  i_msgs_nodup : NoDup (map mg_id (d_msgs d));
+  i_m2m : forall m b, pair_mem m b (d_m2m d) = held d b m
+}.
+
+Lemma find_tab_In : forall b ts t, find_tab b ts = Some t -> In t ts.
+Proof. intros b ts t H. unfold find_tab in H. apply find_some in H. tauto. Qed.
+
+Lemma find_tab_none : forall b ts, find_tab b ts = None -> forall t, In t ts -> t_box t <> b.
+Proof.
+  intros b ts H t Hin E. unfold find_tab in H. apply (find_none _ _ H) in Hin. apply N.eqb_neq in Hin. contradiction.
+Qed.
+
+Lemma find_tab_unique : forall ts b t, NoDup (map t_box ts) -> In t ts -> t_box t = b -> find_tab b ts = Some t.
+Proof.
+  induction ts as [|x ts IH]; intros b t Hnd Hin Hb; [contradiction|].
+  unfold find_tab. cbn [find]. inversion Hnd as [|? ? Hx Hnd']; subst.
+  destruct Hin as [E|Hin].
+  - subst x. rewrite N.eqb_refl. reflexivity.
+  - destruct (N.eqb (t_box x) (t_box t)) eqn:E.
+    + apply N.eqb_eq in E. exfalso. apply Hx. rewrite E. apply in_map. exact Hin.
+    + apply (IH (t_box t) t Hnd' Hin eq_refl).
+Qed.
+
+Lemma find_put_other : forall b b' ts t', t_box t' = b -> b' <> b -> find_tab b' (put_tab t' ts) = find_tab b' ts.
+Proof.
+  intros b b' ts t' Hb Hne. unfold find_tab, put_tab. induction ts as [|x ts IH]; [reflexivity|].
+  cbn [map find]. destruct (N.eqb (t_box x) (t_box t')) eqn:E.
+  - apply N.eqb_eq in E. rewrite Hb in *. 
+    destruct (N.eqb b b') eqn:E1; [apply N.eqb_eq in E1; congruence|].
+    destruct (N.eqb (t_box x) b') eqn:E2; [apply N.eqb_eq in E2; congruence|]. exact IH.
+  - destruct (N.eqb (t_box x) b'); [reflexivity | exact IH].
+Qed.
+
+Lemma put_tab_boxes : forall t' ts, map t_box (put_tab t' ts) = map t_box ts.
+Proof.
+  intros t' ts. unfold put_tab. rewrite map_map. apply map_ext_in. intros x _.
+  destruct (N.eqb (t_box x) (t_box t')) eqn:E; [apply N.eqb_eq in E; symmetry; exact E | reflexivity].
+Qed.
+
+Lemma In_put_tab : forall t' ts x, In x (put_tab t' ts) -> x = t' \/ (In x ts /\ t_box x <> t_box t').
+Proof.
+  intros t' ts x H. unfold put_tab in H. apply in_map_iff in H. destruct H as [y [Hy Hin]].
+  destruct (N.eqb (t_box y) (t_box t')) eqn:E.
+  - left. symmetry. exact Hy.
+  - right. subst y. split; [exact Hin | apply N.eqb_neq; exact E].
+Qed.
+
+(* abstraction *)
+Lemma find_rbox_abs : forall b ts, find (fun x => N.eqb (rb_id x) b) (map tab_abs ts) = option_map tab_abs (find_tab b ts).
+Proof.
+  intros b ts. unfold find_tab. induction ts as [|t ts IH]; [reflexivity|]. cbn [map find tab_abs rb_id].
+  destruct (N.eqb (t_box t) b); [reflexivity | exact IH].
+Qed.
+
+Lemma put_rbox_abs : forall t' ts, put_rbox (tab_abs t') (map tab_abs ts) = map tab_abs (put_tab t' ts).
+Proof.
+  intros t' ts. unfold put_rbox, put_tab. rewrite !map_map. apply map_ext. intros x. cbn [tab_abs rb_id].
+  destruct (N.eqb (t_box x) (t_box t')); reflexivity.
+Qed.
+
+Lemma rb_holds_abs : forall t m, rb_holds (tab_abs t) m = existsb (fun x => N.eqb (r_msg x) m) (t_rows t).
+Proof.
+  intros t m. unfold rb_holds, tab_abs. cbn [rb_rows]. induction (t_rows t) as [|x xs IH]; [reflexivity|].
+  cbn [map existsb row_abs rr_msg]. rewrite IH. reflexivity.
+Qed.
+
+Lemma tab_del_abs : forall ids t, tab_abs (tab_del ids t) = rb_remove ids (tab_abs t).
+Proof.
+  intros ids t. unfold tab_del, rb_remove, tab_abs. cbn. f_equal.
+  induction (t_rows t) as [|x xs IH]; [reflexivity|]. cbn [filter map row_abs rr_msg].
+  destruct (negb (nmem (r_msg x) ids)); cbn [map]; [f_equal|]; exact IH.
+Qed.
+
+Lemma tab_setdel_abs : forall v ids t, tab_abs (tab_setdel v ids t) = rb_set_deleted ids v (tab_abs t).
+Proof.
+  intros v ids t. unfold tab_setdel, rb_set_deleted, tab_abs. cbn. f_equal. rewrite !map_map. apply map_ext.
+  intros x. cbn [row_abs rr_msg]. destruct (nmem (r_msg x) ids); reflexivity.
+Qed.
+
+Lemma map_id_in : forall {A} (f : A -> A) l, (forall x, In x l -> f x = x) -> map f l = l.
+Proof.
+  intros A f l H. induction l as [|a t IH]; [reflexivity|]. cbn [map]. rewrite (H a (or_introl eq_refl)). f_equal.
+  apply IH. intros x Hx. apply H. right. exact Hx.
+Qed.
+
+Lemma put_tab_same : forall ts b t, NoDup (map t_box ts) -> find_tab b ts = Some t -> put_tab t ts = ts.
+Proof.
+  intros ts b t Hnd Hf. unfold put_tab. apply map_id_in. intros x Hx.
+  destruct (N.eqb (t_box x) (t_box t)) eqn:E; [|reflexivity]. apply N.eqb_eq in E.
+  pose proof (find_tab_unique ts (t_box t) x Hnd Hx E) as H1.
+  pose proof (find_tab_box _ _ _ Hf) as Hb. rewrite Hb in H1. rewrite Hf in H1. inversion H1. reflexivity.
+Qed.
+
+(* the explicit effect of adding messages at the end of a mailbox table *)
+Fixpoint tab_append (ms : list N) (t : mtab) : mtab :=
+  match ms with
+  | [] => t
+  | m :: r => tab_append r (mkTab (t_box t) (t_seq t + 1) (t_rows t ++ [mkRow (t_seq t + 1) m m false true]))
+  end.
+
+Lemma tab_append_box : forall ms t, t_box (tab_append ms t) = t_box t.
+Proof. induction ms as [|m r IH]; intros t; [reflexivity|]. cbn [tab_append]. rewrite IH. reflexivity. Qed.
+
+Lemma tab_append_abs : forall ms t, tab_abs (tab_append ms t) = rb_append ms (tab_abs t).
+Proof.
+  induction ms as [|m r IH]; intros t; [reflexivity|]. cbn [tab_append rb_append]. rewrite IH. f_equal.
+  unfold tab_abs. cbn. rewrite map_app. reflexivity.
+Qed.
+
+Lemma tab_append_rows : forall ms t, exists new, t_rows (tab_append ms t) = t_rows t ++ new /\ map r_msg new = ms /\
+  (forall x, In x new -> r_remote x = r_msg x).
+Proof.
+  induction ms as [|m r IH]; intros t.
+  - exists []. rewrite app_nil_r. repeat split. intros x [].
+  - cbn [tab_append]. destruct (IH (mkTab (t_box t) (t_seq t + 1) (t_rows t ++ [mkRow (t_seq t + 1) m m false true]))) as [new [H1 [H2 H3]]].
+    exists (mkRow (t_seq t + 1) m m false true :: new). cbn [t_rows] in H1. rewrite H1, <- app_assoc. split; [reflexivity|].
+    split; [cbn; rewrite H2; reflexivity|]. intros x [E|Hx]; [subst; reflexivity | apply H3; exact Hx].
+Qed.
+
+Lemma existsb_app_single : forall {A} (p : A -> bool) l x, existsb p (l ++ [x]) = existsb p l || p x.
+Proof. intros. rewrite existsb_app. cbn. rewrite orb_false_r. reflexivity. Qed.
+
+Lemma foldM_tab_ins : forall msgs ms t,
+  NoDup ms ->
+  (forall m, In m ms -> existsb (fun x => N.eqb (r_msg x) m) (t_rows t) = false
+                      /\ existsb (fun x => N.eqb (r_remote x) m) (t_rows t) = false
+                      /\ existsb (fun x => N.eqb (mg_id x) m) msgs = true) ->
+  foldM (tab_ins1 msgs) (map (fun m => (m, m)) ms) t = Some (tab_append ms t).
+Proof.
+  intros msgs ms. induction ms as [|m r IH]; intros t Hnd H; [reflexivity|].
+  cbn [map foldM tab_append]. unfold tab_ins1 at 1.
+  destruct (H m (or_introl eq_refl)) as [H1 [H2 H3]]. rewrite H1, H2, H3. cbn [negb].
+  inversion Hnd as [|? ? Hm Hnd']; subst. apply IH; [exact Hnd'|].
+  intros m' Hm'. destruct (H m' (or_intror Hm')) as [G1 [G2 G3]]. cbn [t_rows].
+  rewrite !existsb_app_single. cbn [r_msg r_remote]. rewrite G1, G2.
+  assert (E : N.eqb m m' = false) by (apply N.eqb_neq; intros E; subst; contradiction).
+  rewrite E. repeat split; auto.
+Qed.
+
+Lemma foldM_m2m_ins : forall d b ms l,
+  NoDup ms -> mbox_exists b d = true ->
+  (forall m, In m ms -> pair_mem m b l = false /\ msg_exists m d = true) ->
+  foldM (m2m_ins1 d b) ms l = Some (l ++ map (fun m => (m, b)) ms).
+Proof.
+  intros d b ms. induction ms as [|m r IH]; intros l Hnd Hb H; cbn [foldM map].
+  - rewrite app_nil_r. reflexivity.
+  - unfold m2m_ins1 at 1. destruct (H m (or_introl eq_refl)) as [H1 H2]. rewrite H1, H2, Hb. cbn [negb].
+    inversion Hnd as [|? ? Hm Hnd']; subst. rewrite (IH (l ++ [(m, b)]) Hnd' Hb).
+    + rewrite <- app_assoc. reflexivity.
+    + intros m' Hm'. destruct (H m' (or_intror Hm')) as [G1 G2]. split; [|exact G2].
+      unfold pair_mem in *. rewrite existsb_app_single. rewrite G1. cbn [fst snd].
+      assert (E : N.eqb m m' = false) by (apply N.eqb_neq; intros E; subst; contradiction).
+      rewrite E. reflexivity.
+Qed.
+
+Lemma pair_mem_app : forall m b l1 l2, pair_mem m b (l1 ++ l2) = pair_mem m b l1 || pair_mem m b l2.
+Proof. intros. unfold pair_mem. apply existsb_app. Qed.
+
+Lemma pair_mem_map : forall m b b' ms, pair_mem m b (map (fun x => (x, b')) ms) = nmem m ms && N.eqb b' b.
+Proof.
+  intros m b b' ms. unfold pair_mem, nmem. induction ms as [|x r IH]; [reflexivity|]. cbn [map existsb fst snd].
+  rewrite IH. rewrite (N.eqb_sym x m). destruct (N.eqb m x), (N.eqb b' b), (existsb (N.eqb m) r); reflexivity.
+Qed.
+
+Lemma pair_mem_filter : forall m b (p : N * N -> bool) l, pair_mem m b (filter p l) = pair_mem m b l && p (m, b).
+Proof.
+  intros m b p l. unfold pair_mem. induction l as [|x r IH]; [reflexivity|]. cbn [filter existsb].
+  destruct (N.eqb (fst x) m && N.eqb (snd x) b) eqn:E.
+  - apply andb_true_iff in E. destruct E as [E1 E2]. apply N.eqb_eq in E1, E2. destruct x as [x1 x2]. cbn [fst snd] in *. subst.
+    destruct (p (m, b)) eqn:Ep.
+    + cbn [existsb fst snd]. rewrite !N.eqb_refl. reflexivity.
+    + rewrite IH. cbn [orb]. rewrite !andb_false_r. reflexivity.
+  - destruct (p x); cbn [existsb orb]; [rewrite E; cbn [orb]|]; exact IH.
+Qed.
+
+(* ------------------------------------------------------------------ removing messages from a mailbox *)
+Definition do_remove (b : N) (ids : list N) (t : mtab) (d : db) : db :=
+  m2m_del_rows b ids (set_tabs d (put_tab (tab_del ids t) (d_tabs d))).
+
+Lemma m2m_del_nil : forall b d, m2m_del_rows b [] d = d.
+Proof. intros b d. destruct (m2m_del_hom b) as [H _]. specialize (H d). inversion H. rewrite H1. exact H1. Qed.
+
+Lemma held_put : forall d b b' t' m, t_box t' = b -> (exists t, find_tab b (d_tabs d) = Some t) ->
+  held (set_tabs d (put_tab t' (d_tabs d))) b' m =
+  if N.eqb b' b then existsb (fun x => N.eqb (r_msg x) m) (t_rows t') else held d b' m.
+Proof.
+  intros d b b' t' m Hb [t Ht]. unfold held. cbn [d_tabs set_tabs].
+  destruct (N.eqb b' b) eqn:E.
+  - apply N.eqb_eq in E. subst b'. rewrite (find_put_same b (d_tabs d) t t' Ht Hb). reflexivity.
+  - apply N.eqb_neq in E. rewrite (find_put_other b b' (d_tabs d) t' Hb E). reflexivity.
+Qed.
+
+Lemma existsb_filter_and : forall {A} (q p : A -> bool) l, existsb q (filter p l) = existsb (fun x => q x && p x) l.
+Proof.
+  intros A q p l. induction l as [|x r IH]; [reflexivity|]. cbn [filter existsb].
+  destruct (p x); cbn [existsb]; rewrite IH; [rewrite andb_true_r | rewrite andb_false_r]; reflexivity.
+Qed.
+
+Lemma existsb_msg_filter : forall m ids rows,
+  existsb (fun x => N.eqb (r_msg x) m) (filter (fun x => negb (nmem (r_msg x) ids)) rows)
+  = existsb (fun x => N.eqb (r_msg x) m) rows && negb (nmem m ids).
+Proof.
+  intros m ids rows. rewrite existsb_filter_and. induction rows as [|x r IH]; [reflexivity|]. cbn [existsb]. rewrite IH.
+  destruct (N.eqb (r_msg x) m) eqn:E.
+  - apply N.eqb_eq in E. rewrite E. destruct (nmem m ids), (existsb (fun x0 => N.eqb (r_msg x0) m) r); reflexivity.
+  - cbn [andb orb]. reflexivity.
+Qed.
+
+Lemma NoDup_map_filter : forall {A B} (f : A -> B) (p : A -> bool) l, NoDup (map f l) -> NoDup (map f (filter p l)).
+Proof.
+  intros A B f p l H. induction l as [|x r IH]; [constructor|]. cbn [map] in H. inversion H as [|? ? Hx Hr]; subst.
+  cbn [filter]. destruct (p x); [|apply IH; exact Hr]. cbn [map]. constructor; [|apply IH; exact Hr].
+  intros Hin. apply Hx. apply in_map_iff in Hin. destruct Hin as [y [Hy Hin]]. apply filter_In in Hin.
+  apply in_map_iff. exists y. tauto.
+Qed.
+
+Lemma rows_ok_frame : forall d d' t, d_msgs d' = d_msgs d -> rows_ok d t -> rows_ok d' t.
+Proof.
+  intros d d' t Hm [H1 H2]. split; [|exact H2]. intros x Hx. destruct (H1 x Hx) as [A B]. split; [exact A|].
+  unfold msg_exists in *. rewrite Hm. exact B.
+Qed.
+
+Lemma inv_do_remove : forall b ids t d, inv d -> find_tab b (d_tabs d) = Some t -> inv (do_remove b ids t d).
+Proof.
+  intros b ids t d I Ht. pose proof (find_tab_box _ _ _ Ht) as Hb.
+  assert (Hb' : t_box (tab_del ids t) = b) by (unfold tab_del; cbn; exact Hb).
+  constructor.
+  - intros x Hx. cbn [do_remove m2m_del_rows d_tabs set_m2m set_tabs] in Hx.
+    unfold mbox_exists, find_mbox. cbn [do_remove m2m_del_rows d_mboxes set_m2m set_tabs].
+    apply In_put_tab in Hx. destruct Hx as [E|[Hx _]].
+    + subst x. rewrite Hb', <- Hb. apply (i_boxes d I t (find_tab_In _ _ _ Ht)).
+    + apply (i_boxes d I x Hx).
+  - cbn [do_remove m2m_del_rows d_tabs set_m2m set_tabs]. rewrite put_tab_boxes. apply (i_tabs d I).
+  - intros x Hx. cbn [do_remove m2m_del_rows d_tabs set_m2m set_tabs] in Hx.
+    apply rows_ok_frame with (d := d); [reflexivity|].
+    apply In_put_tab in Hx. destruct Hx as [E|[Hx _]].
+    + subst x. destruct (i_rows d I t (find_tab_In _ _ _ Ht)) as [H1 H2]. split.
+      * intros y Hy. unfold tab_del in Hy. cbn [t_rows] in Hy. apply filter_In in Hy. apply H1. tauto.
+      * unfold tab_del. cbn [t_rows]. apply NoDup_map_filter. exact H2.
+    + apply (i_rows d I x Hx).
+  - apply (i_msgs d I).
+  - apply (i_msgs_nodup d I).
+  - intros m b'. unfold do_remove, m2m_del_rows. cbn [d_m2m set_m2m set_tabs].
+    rewrite pair_mem_filter. cbn [fst snd]. rewrite (i_m2m d I).
+    change (held (set_m2m (set_tabs d (put_tab (tab_del ids t) (d_tabs d))) (filter (fun p => negb (nmem (fst p) ids && N.eqb (snd p) b)) (d_m2m d))) b' m)
+      with (held (set_tabs d (put_tab (tab_del ids t) (d_tabs d))) b' m).
+    rewrite (held_put d b b' (tab_del ids t) m Hb' (ex_intro _ t Ht)).
+    destruct (N.eqb b' b) eqn:E.
+    + apply N.eqb_eq in E. subst b'. unfold tab_del. cbn [t_rows]. rewrite existsb_msg_filter.
+      unfold held. rewrite Ht. rewrite andb_true_r. reflexivity.
+    + rewrite andb_false_r. cbn [negb]. rewrite andb_true_r. reflexivity.
+Qed.
+
+Lemma held_do_remove : forall b ids t d b' m, find_tab b (d_tabs d) = Some t ->
+  held (do_remove b ids t d) b' m = if N.eqb b' b then held d b m && negb (nmem m ids) else held d b' m.
+Proof.
+  intros b ids t d b' m Ht. pose proof (find_tab_box _ _ _ Ht) as Hb.
+  assert (Hb' : t_box (tab_del ids t) = b) by (unfold tab_del; cbn; exact Hb).
+  change (held (do_remove b ids t d) b' m) with (held (set_tabs d (put_tab (tab_del ids t) (d_tabs d))) b' m).
+  rewrite (held_put d b b' (tab_del ids t) m Hb' (ex_intro _ t Ht)).
+  destruct (N.eqb b' b); [|reflexivity]. unfold tab_del. cbn [t_rows]. rewrite existsb_msg_filter. unfold held. rewrite Ht. reflexivity.
+Qed.
+
+Section Steps.
+  Variable F : list stmt_fact.
+  Hypothesis HF : facts_ok F = true.
+  Local Notation ci := true.
+
+  Lemma act_remove_unchecked_eq : forall b ids t d, inv d -> find_tab b (d_tabs d) = Some t ->
+    act_remove_unchecked F ci b ids d = Ok (do_remove b ids t d) RUnit.
+  Proof.
+    intros b ids t d I Ht. unfold act_remove_unchecked. destruct ids as [|x ids].
+    - unfold do_remove. rewrite tab_del_nil, (put_tab_same _ _ _ (i_tabs d I) Ht), db_eta_tabs, m2m_del_nil. reflexivity.
+    - rewrite (ex_remove F HF). unfold sp_remove_messages. cbn [tab_del_rows]. unfold upd_tab. rewrite Ht. reflexivity.
+  Qed.
+End Steps.
+
+(* ------------------------------------------------------------------ adding messages at the end of a mailbox *)
+Definition do_add (b : N) (ids : list N) (t : mtab) (d : db) : db :=
+  set_m2m (set_tabs d (put_tab (tab_append ids t) (d_tabs d))) (d_m2m d ++ map (fun m => (m, b)) ids).
+
+Definition addable (d : db) (b : N) (ids : list N) : Prop :=
+  NoDup ids /\ forall m, In m ids -> held d b m = false /\ msg_exists m d = true.
+
+Lemma held_false_rows : forall d b t m, inv d -> find_tab b (d_tabs d) = Some t -> held d b m = false ->
+  existsb (fun x => N.eqb (r_msg x) m) (t_rows t) = false /\ existsb (fun x => N.eqb (r_remote x) m) (t_rows t) = false.
+Proof.
+  intros d b t m I Ht H. unfold held in H. rewrite Ht in H. split; [exact H|].
+  destruct (i_rows d I t (find_tab_In _ _ _ Ht)) as [H1 _].
+  destruct (existsb (fun x => N.eqb (r_remote x) m) (t_rows t)) eqn:E; [|reflexivity].
+  apply existsb_exists in E. destruct E as [x [Hx E]]. destruct (H1 x Hx) as [A _]. rewrite A in E.
+  assert (existsb (fun x0 => N.eqb (r_msg x0) m) (t_rows t) = true) by (apply existsb_exists; exists x; tauto). congruence.
+Qed.
+
+Lemma map_fst_pairs : forall ids, map fst (pairs ids) = ids.
+Proof. intros. unfold pairs. rewrite map_map. apply map_ext_id. reflexivity. Qed.
+
+Lemma existsb_msg_append : forall m ids t,
+  existsb (fun x => N.eqb (r_msg x) m) (t_rows (tab_append ids t)) = existsb (fun x => N.eqb (r_msg x) m) (t_rows t) || nmem m ids.
+Proof.
+  intros m ids. induction ids as [|i r IH]; intros t; cbn [tab_append nmem existsb].
+  - rewrite orb_false_r. reflexivity.
+  - rewrite IH. cbn [t_rows]. rewrite existsb_app_single. cbn [r_msg]. fold (nmem m r).
+    rewrite (N.eqb_sym i m). rewrite orb_assoc. reflexivity.
+Qed.
+
+Lemma NoDup_app_disj : forall {A} (l1 l2 : list A), NoDup l1 -> NoDup l2 -> (forall x, In x l1 -> ~ In x l2) -> NoDup (l1 ++ l2).
+Proof.
+  intros A l1. induction l1 as [|a r IH]; intros l2 H1 H2 H; [exact H2|]. cbn [app]. inversion H1; subst.
+  constructor.
+  - intros Hin. apply in_app_or in Hin. destruct Hin as [Hin|Hin]; [contradiction | apply (H a (or_introl eq_refl) Hin)].
+  - apply IH; auto. intros x Hx. apply H. right. exact Hx.
+Qed.
+
+Lemma inv_do_add : forall b ids t d, inv d -> find_tab b (d_tabs d) = Some t -> addable d b ids -> inv (do_add b ids t d).
+Proof.
+  intros b ids t d I Ht [Hnd Hadd]. pose proof (find_tab_box _ _ _ Ht) as Hb.
+  assert (Hb' : t_box (tab_append ids t) = b) by (rewrite tab_append_box; exact Hb).
+  constructor.
+  - intros x Hx. cbn [do_add d_tabs set_m2m set_tabs] in Hx.
+    unfold mbox_exists, find_mbox. cbn [do_add d_mboxes set_m2m set_tabs].
+    apply In_put_tab in Hx. destruct Hx as [E|[Hx _]].
+    + subst x. rewrite Hb', <- Hb. apply (i_boxes d I t (find_tab_In _ _ _ Ht)).
+    + apply (i_boxes d I x Hx).
+  - cbn [do_add d_tabs set_m2m set_tabs]. rewrite put_tab_boxes. apply (i_tabs d I).
+  - intros x Hx. cbn [do_add d_tabs set_m2m set_tabs] in Hx.
+    apply rows_ok_frame with (d := d); [reflexivity|].
+    apply In_put_tab in Hx. destruct Hx as [E|[Hx _]]; [|apply (i_rows d I x Hx)].
+    subst x. destruct (i_rows d I t (find_tab_In _ _ _ Ht)) as [H1 H2].
+    destruct (tab_append_rows ids t) as [new [E1 [E2 E3]]]. split.
+    + intros y Hy. rewrite E1 in Hy. apply in_app_or in Hy. destruct Hy as [Hy|Hy]; [apply H1; exact Hy|].
+      split; [apply E3; exact Hy|]. apply Hadd. rewrite <- E2. apply in_map. exact Hy.
+    + rewrite E1, map_app, E2. apply NoDup_app_disj; [exact H2 | exact Hnd|].
+      intros m Hm Hin. destruct (Hadd m Hin) as [Hh _]. unfold held in Hh. rewrite Ht in Hh.
+      apply in_map_iff in Hm. destruct Hm as [y [Ey Hy]].
+      assert (existsb (fun x => N.eqb (r_msg x) m) (t_rows t) = true) by (apply existsb_exists; exists y; split; [exact Hy | apply N.eqb_eq; exact Ey]).
+      congruence.
+  - apply (i_msgs d I).
+  - apply (i_msgs_nodup d I).
+  - intros m b'. unfold do_add. cbn [d_m2m set_m2m].
+    rewrite pair_mem_app, pair_mem_map, (i_m2m d I).
+    change (held (set_m2m (set_tabs d (put_tab (tab_append ids t) (d_tabs d))) (d_m2m d ++ map (fun m0 => (m0, b)) ids)) b' m)
+      with (held (set_tabs d (put_tab (tab_append ids t) (d_tabs d))) b' m).
+    rewrite (held_put d b b' (tab_append ids t) m Hb' (ex_intro _ t Ht)). rewrite (N.eqb_sym b b').
+    destruct (N.eqb b' b) eqn:E.
+    + apply N.eqb_eq in E. subst b'. rewrite existsb_msg_append. unfold held. rewrite Ht. rewrite andb_true_r. reflexivity.
+    + rewrite andb_false_r, orb_false_r. reflexivity.
+Qed.
+
+Lemma held_do_add : forall b ids t d b' m, find_tab b (d_tabs d) = Some t ->
+  held (do_add b ids t d) b' m = if N.eqb b' b then held d b m || nmem m ids else held d b' m.
+Proof.
+  intros b ids t d b' m Ht. pose proof (find_tab_box _ _ _ Ht) as Hb.
+  assert (Hb' : t_box (tab_append ids t) = b) by (rewrite tab_append_box; exact Hb).
+  change (held (do_add b ids t d) b' m) with (held (set_tabs d (put_tab (tab_append ids t) (d_tabs d))) b' m).
+  rewrite (held_put d b b' (tab_append ids t) m Hb' (ex_intro _ t Ht)).
+  destruct (N.eqb b' b); [|reflexivity]. rewrite existsb_msg_append. unfold held. rewrite Ht. reflexivity.
+Qed.
+
+Section Steps2.
+  Variable F : list stmt_fact.
+  Hypothesis HF : facts_ok F = true.
+  Local Notation ci := true.
+
+  Lemma st_add_eq : forall b ids t d, inv d -> find_tab b (d_tabs d) = Some t -> addable d b ids ->
+    exists r, st_add F ci b ids d = Ok (do_add b ids t d) r.
+  Proof.
+    intros b ids t d I Ht [Hnd Hadd]. unfold st_add.
+    rewrite (ex_common F HF (OGetCountAndUID b) d eq_refl). cbn [exec_common]. unfold op_get_count_and_uid, tab_or_fail.
+    rewrite Ht. cbn [rbind].
+    destruct ids as [|i ids].
+    - exists (RSnap []). unfold ex. cbn [pairs map exec_impl im_add_messages]. unfold do_add. cbn [tab_append map].
+      rewrite app_nil_r, (put_tab_same _ _ _ (i_tabs d I) Ht), db_eta_tabs, db_eta_m2m. reflexivity.
+    - set (il := i :: ids) in *.
+      assert (E1 : tab_ins_rows b (pairs il) d = Some (set_tabs d (put_tab (tab_append il t) (d_tabs d)))).
+      { unfold il at 1. cbn [pairs map tab_ins_rows]. unfold upd_tab. rewrite Ht.
+        change ((i, i) :: map (fun m => (m, m)) ids) with (map (fun m => (m, m)) il).
+        rewrite (foldM_tab_ins (d_msgs d) il t Hnd); [reflexivity|].
+        intros m Hm. destruct (Hadd m Hm) as [Hh He]. destruct (held_false_rows d b t m I Ht Hh) as [A B].
+        repeat split; assumption. }
+      assert (E2 : m2m_ins_rows b (pairs il) (set_tabs d (put_tab (tab_append il t) (d_tabs d))) = Some (do_add b il t d)).
+      { unfold m2m_ins_rows. rewrite map_fst_pairs. cbn [d_m2m set_tabs].
+        rewrite (foldM_ext _ (m2m_ins1 d b)) by reflexivity.
+        rewrite (foldM_m2m_ins d b il (d_m2m d) Hnd); [reflexivity | |].
+        - rewrite <- (find_tab_box _ _ _ Ht). apply (i_boxes d I t (find_tab_In _ _ _ Ht)).
+        - intros m Hm. destruct (Hadd m Hm) as [Hh He]. split; [rewrite (i_m2m d I); exact Hh | exact He]. }
+      assert (E3 : exists rows, sp_add_messages b (pairs il) d = Ok (do_add b il t d) (RSnap rows)).
+      { unfold sp_add_messages. unfold il at 1. cbn [pairs map].
+        change ((i, i) :: map (fun m => (m, m)) ids) with (pairs il). rewrite E1. cbn [obind]. rewrite E2.
+        unfold sel_rows_in.
+        assert (Hf : exists t', find_tab b (d_tabs (do_add b il t d)) = Some t').
+        { exists (tab_append il t). cbn [do_add d_tabs set_m2m set_tabs]. apply (find_put_same b (d_tabs d) t _ Ht).
+          rewrite tab_append_box. apply (find_tab_box _ _ _ Ht). }
+        destruct Hf as [t' Hf]. rewrite Hf. eexists. reflexivity. }
+      destruct E3 as [rows E3]. apply (ex_ok F HF (OAddMessages b (pairs il)) d _ _ E3).
+  Qed.
+End Steps2.
